@@ -18,7 +18,7 @@ RULE = ('Hypothesis draws (filter pair, J in 1..4, H,W with odd / non-multiple-o
         'dtcwt.numpy Transform2d.inverse on the same pyramid with zeros for absent parts: synthesis operator on basis '
         'pyramids (all columns when <= 128, else 64 generated columns) and dense pyramids. Non-trivial = J>=2 and '
         '(odd/pad-to-4 size or something absent). Distinct = configuration without seeds.')
-ASSUMPTIONS = ['the NumPy dtcwt 0.14 inverse is the reference', 'tolerance 1e-9*max(1,gain*max|c|) float64, 64*eps32 float32']
+ASSUMPTIONS = ['the NumPy dtcwt 0.14 inverse is the reference', 'tolerance 1e-11*max(1,gain*max|c|) float64, 64*eps32 float32']
 STRATA = {'thorough': 'all 24 filter pairs x J in 1..4', 'quick': ''}
 LABEL_FLOORS = {'something_absent': 0.4, 'pad4_rows': 0.15, 'pad4_cols': 0.15}
 
@@ -59,7 +59,7 @@ def _case(draw, unit):
             'N': draw(st.sampled_from([1, 1, 2])), 'C': draw(st.sampled_from([1, 2, 3])),
             'dtype': draw(st.sampled_from(['f64', 'f64', 'f64', 'f32'])),
             'low': low, 'highs': his, 'zero_valued': [int(draw(st.integers(0, 3)) == 0) for _ in range(J + 1)],
-            'reused': draw(st.integers(0, 2)) == 0,
+            'reused': draw(st.integers(0, 2)) == 0, 'later_sibling': draw(st.integers(0, 2)) == 0,
             'layout': list(draw(st.sampled_from(LAYOUTS))) if draw(st.integers(0, 2)) == 0 else [2, -1], 'filt_form': draw(st.sampled_from(['names', 'names', 'names', 'tuples'])),
             'ctx': draw(st.sampled_from(core.GRAD_CTXS)), 'other_precision_first': draw(st.integers(0, 3)) == 0,
             'rx': draw(core.recipe_strategy()), 'rp': draw(core.recipe_strategy()),
@@ -157,6 +157,13 @@ def _run_case(case):
                 inv = fresh
         else:
             inv = DTCWTInverse(biort=ib, qshift=iq, o_dim=o_, ri_dim=ri_)
+    if case.get('later_sibling'):
+        # another inverse with a different filter pair is constructed (and used once) between construction and use
+        r.label('sibling_constructed_later')
+        ob, oq = dtu.other_pair(b, q)
+        with dwtu.default_dtype(tdt), torch.inference_mode(False):
+            core.libcall(lambda: DTCWTInverse(biort=ob, qshift=oq, o_dim=o_, ri_dim=ri_)(
+                (torch.ones(1, 1, 8, 8, dtype=tdt), [lay(torch.ones(1, 1, 6, 8, 8, 2, dtype=tdt)), lay(torch.ones(1, 1, 6, 4, 4, 2, dtype=tdt))])))
     if case.get('other_precision_first'):
         r.label('after_other_precision_call')
         dwtu.other_precision_call(inv, None, tdt, lambda dt: (
@@ -176,7 +183,7 @@ def _run_case(case):
     if tuple(out.shape) != (M.shape[0], 1, He, We) or want.shape[1:] != (He, We):
         r.fail('shape', 'output %s, reference %s, expected extent %s' % (tuple(out.shape), want.shape, (He, We)))
     else:
-        tol = (64 * core.EPS32 if f32 else 1e-9) * g
+        tol = (64 * core.EPS32 if f32 else core.TOL64) * g
         okc, err = core.close(dwtu.to_np(out)[:, 0], want, tol)
         r.metric('operator_abs_err_' + case['dtype'], err)
         if not okc:
@@ -224,7 +231,7 @@ def _run_case(case):
     if out.dtype != tdt:
         r.fail('dtype', 'output dtype %s for %s coefficients' % (out.dtype, tdt))
     cmax = max([core.maxabs(zl)] + [core.maxabs(h) for h in zh])
-    tol = (64 * core.EPS32 if f32 else 1e-9) * max(g * cmax, 1e-300)
+    tol = (64 * core.EPS32 if f32 else core.TOL64) * max(g * cmax, 1e-300)
     if tuple(out.shape) != want.shape:
         mismatch('shape_absent' if some_absent else 'shape_dense',
                  'output shape %s, zeros-equivalent reference %s (low=%s highs=%s)' %
